@@ -206,6 +206,10 @@ def run_property(pid, body, tier="quick", seed=0, root=None):
     os.environ["FDCHECK_TIER"] = tier
     try:
         check.proj = Project(check.root)
+        # rules shared by several properties run first: an unsupported construct met later by the
+        # property's own engines must not hide a violation they can already name
+        from . import common_rules
+        common_rules.run(check)
         body(check)
         if tier == "thorough" and not os.environ.get("FDCHECK_NO_SELFTEST"):
             # both-ways self-test of this property's rules (reported in the evidence; it never
